@@ -4,6 +4,7 @@ import common
 from common import show_floats, show_ints, fbits
 import tprog, gen_dag, gen_ops
 
+tprog.ENTRIES = True        # function / Tensor method / operator / nn layer class
 tprog.SPELLINGS = True      # int-or-tuple arguments in every documented spelling
 PROP = 'C14'
 LEAN_TARGETS = ['Props.C14']
@@ -74,13 +75,18 @@ def gen_identity(rng, which):
     V = lambda sh, kind='any': gen_ops.vals(rng, sh, kind)
     if which == 'ce':
         n, c = rng.randint(1, 4), rng.randint(2, 4)
-        x = b.leaf((n, c), V((n, c)))
+        far = rng.chance(.6); dt = 'f32' if far and rng.chance(.7) else 'f64'
+        xv = V((n, c))
+        if far:       # rows at very different levels: every row has to be shifted by ITS OWN maximum
+            offs = [rng.pick([-60.0, 60.0, -40.0, 0.0, 75.0]) for _ in range(n)]
+            xv = [round(v * 4) / 4 + offs[k // c] for k, v in enumerate(xv)]
+        x = b.leaf((n, c), xv, True, dt)
         labels = [rng.randrange(c) for _ in range(n)]
         y = b.leaf((n,), [float(v) for v in labels], False, 'i64')
         l = b.op('cross_entropy', [x, y], show_ints(labels))
         ls = b.op('log_softmax', [x], 1)
         r = b.op('nll_loss', [ls, y], show_ints(labels))
-        return finish(b, l, r, rng)
+        return finish(b, l, r, rng, 1e-9 if dt == 'f64' else 2e-5)
     if which == 'bcel':
         s = gen_ops.rshape(rng, 1, 2)
         x = b.leaf(s, V(s)); y = b.leaf(s, [float(rng.randint(0, 1)) for _ in range(int(np.prod(s)))], False)
@@ -90,10 +96,17 @@ def gen_identity(rng, which):
     if which == 'logsoftmax':
         s = gen_ops.rshape(rng, 1, 3)
         d = rng.randrange(-len(s), len(s))
-        x = b.leaf(s, V(s))
+        far = rng.chance(.6) and len(s) >= 2; dt = 'f32' if far and rng.chance(.7) else 'f64'
+        xv = V(s)
+        if far:       # fibres at very different levels (the level is constant along the softmax dim)
+            X = np.array(xv).reshape(s)
+            lev = np.array([rng.pick([-60.0, 60.0, -40.0, 0.0, 75.0]) for _ in range(X.size)]).reshape(s)
+            lev = np.take(lev, [0], axis=d % len(s))
+            xv = (np.round(X * 4) / 4 + lev).ravel().tolist()
+        x = b.leaf(s, xv, True, dt)
         l = b.op('log_softmax', [x], d)
         sm = b.op('softmax', [x], d); r = b.op('log', [sm])
-        return finish(b, l, r, rng, 1e-6)
+        return finish(b, l, r, rng, 1e-6 if dt == 'f64' else 2e-4)
     if which == 'linear':
         n, i, o = rng.randint(1, 3), rng.randint(1, 4), rng.randint(1, 3)
         x, w, bb = b.leaf((n, i), V((n, i))), b.leaf((o, i), V((o, i))), b.leaf((o,), V((o,)))
@@ -302,7 +315,7 @@ def cases(rng, tier):
     out = []
     reps = 8 if tier == 'quick' else 300
     for w in IDS:
-        for _ in range(reps):
+        for _ in range(reps * (3 if w in ('ce', 'logsoftmax', 'bcel') else 1)):      # the numerically delicate identities get more operand sets
             c = gen_identity(rng, w)
             c['id'] = w
             c['desc'] = w + ': ' + ' ; '.join(c['lines'])[:500]
